@@ -98,12 +98,18 @@ def leavesL : List PyVal → List PyVal
   | x :: xs => leaves x ++ leavesL xs
 end
 
+/-- not a list: a leaf of an array literal -/
+def isScalar : PyVal → Bool
+  | .list _ => false
+  | _ => true
+
 end PyVal
 
 inductive Err where
   | typeError       -- unexpected / missing constructor keyword
   | unknownObject   -- class name not resolvable at this deserialisation site
   | valueError      -- malformed value
+  | attributeError  -- a numpy method (`.tolist()`) called on a plain Python object
 deriving DecidableEq, Repr
 
 /-- serialised object `{"class_name": c, "config": {...}}` (Keras adds `module` /
@@ -126,12 +132,20 @@ structure QSpec where
   extra : List (String × PyVal)
   /-- `_set_trainable_parameter`: 0 absent, 1 alpha := "auto_po2", 2 also symmetric := True -/
   trainable : Nat
+  /-- arguments that `get_config` writes as `self.<arg>.tolist() if self.<arg> is not None else None`:
+      the call raises AttributeError unless the live value is a numpy array / numpy scalar
+      (quantized_bits.post_training_scale; observed on live instances by the static tie) -/
+  tolist : List String := []
 deriving Repr
 
 /-- a quantizer instance: class name and the value of every constructor argument -/
 structure QObj where
   cls : String
   args : Cfg
+  /-- arguments whose live value is a plain Python object (list, tuple, float, int) rather than a
+      numpy array / numpy scalar.  `PyVal` identifies lists and arrays, so this is the only place
+      where the Python type is kept; it matters only for the arguments in `QSpec.tolist`. -/
+  native : List String := []
 deriving Repr
 
 def QSpec.hasParam (s : QSpec) (k : String) : Bool := s.params.any (fun p => p.1 == k)
@@ -147,24 +161,37 @@ def qGetConfig (s : QSpec) (q : QObj) : Cfg :=
     keyword → default.  (`post_training_scale` list→array is the identity on `PyVal`.) -/
 def qFromConfig (s : QSpec) (cfg : Cfg) : Except Err QObj :=
   if cfg.all (fun kv => s.hasParam kv.1) then
-    .ok ⟨s.name, s.params.map fun p => (p.1, (cfg.lookup p.1).getD p.2)⟩
+    .ok ⟨s.name, s.params.map fun p => (p.1, (cfg.lookup p.1).getD p.2), []⟩
   else .error .typeError
+
+/-- does `<quantizer>.get_config()` raise?  `.tolist()` on an argument that is neither None nor a
+    numpy value (`quantized_bits(alpha="auto_po2", post_training_scale=[0.5])` or `=0.5`: the
+    constructor accepts it — `np.array(post_training_scale)` — and `get_config` then raises
+    AttributeError).  `from_config` wraps the argument in `np.array`, so a reloaded quantizer has
+    `native = []`. -/
+def qGetConfigRaises (s : QSpec) (q : QObj) : Bool :=
+  s.tolist.any fun k =>
+    q.native.contains k &&
+      (match q.args.lookup k with
+       | some .none => false
+       | none => false
+       | some _ => true)
 
 /-- what a quantizer becomes after `from_config (get_config q)` when that succeeds: emitted
     arguments keep their value, the others fall back to the constructor default -/
 def qReload (s : QSpec) (q : QObj) : QObj :=
   ⟨s.name, s.params.map fun p =>
-    (p.1, if s.emits.contains p.1 then (q.args.lookup p.1).getD .none else p.2)⟩
+    (p.1, if s.emits.contains p.1 then (q.args.lookup p.1).getD .none else p.2), []⟩
 
 /-- `_set_trainable_parameter()` -/
 def setTrainable (s : QSpec) (q : QObj) : QObj :=
   match s.trainable, q.args.lookup "alpha" with
   | 0, _ => q
   | t, some .none =>
-    ⟨q.cls, q.args.map fun kv =>
+    ⟨q.cls, q.args.map (fun kv =>
       if kv.1 == "alpha" then (kv.1, .str "auto_po2")
       else if t == 2 && kv.1 == "symmetric" then (kv.1, .bool true)
-      else kv⟩
+      else kv), q.native⟩
   | _, _ => q
 
 /-- value of a quantizer slot -/
@@ -281,6 +308,9 @@ structure Env where
   customObjects : List String
   /-- `max(1, quantizer.max())` (or 1.0 without a `max` attribute): numeric, property C01 -/
   clipBound : QVal → PyVal
+  /-- names that Keras resolves itself when it deserialises a stock layer: its built-in activation
+      names (compared with `tf.keras.activations` on every run) -/
+  kerasNames : List String := []
 
 def Env.findQ (E : Env) (n : String) : Option QSpec := E.qspecs.find? (fun s => s.name == n)
 def Env.findL (E : Env) (n : String) : Option LSpec := E.lspecs.find? (fun s => s.name == n)
@@ -407,6 +437,15 @@ def reshapeMask : PyVal → Except Err PyVal
       else .error .valueError
     | _ => .error .valueError
   | _ => .error .valueError
+
+/-- the (h, w, 1, 1) array with entry `f i j` at kernel position (i, j), as `self._mask.tolist()`
+    writes it into the config -/
+def mask4 (h w : Nat) (f : Nat → Nat → PyVal) : PyVal :=
+  .list ((List.range h).map fun i => .list ((List.range w).map fun j => .list [.list [f i j]]))
+
+/-- the same mask as the (h, w) array a user passes to `QConv2D(..., mask=...)` -/
+def mask2 (h w : Nat) (f : Nat → Nat → PyVal) : PyVal :=
+  .list ((List.range h).map fun i => .list ((List.range w).map fun j => f i j))
 
 def serArg (E : Env) : Kind → Arg → PyVal
   | .lit, .lit v => v
@@ -618,6 +657,20 @@ def layerFromSer (E : Env) (v : PyVal) : Except Err Layer :=
 def Env.isLibraryClass (E : Env) (c : String) : Bool :=
   (E.findL c).isSome || c == "QBidirectional"
 
+/-- config keys of a stock Keras layer whose string value Keras resolves as an identifier -/
+def identifierKeys : List String := ["activation", "recurrent_activation"]
+
+/-- Keras resolving an identifier string INSIDE the custom-object scope the three routes install:
+    a key of the table wins over Keras' own function of the same name (the value then denotes the
+    table's object, written `{"custom_object": name}` here) -/
+def resolveName (E : Env) : PyVal → PyVal
+  | .str s => if E.customObjects.contains s then .dict [("custom_object", .str s)] else .str s
+  | v => v
+
+/-- what a stock Keras layer's config means after a route -/
+def kerasNodeCfg (E : Env) (cfg : Cfg) : Cfg :=
+  cfg.map fun kv => if identifierKeys.contains kv.1 then (kv.1, resolveName E kv.2) else kv
+
 def nodeFromConfig (E : Env) (s : SNode) : Except Err Node :=
   if E.isLibraryClass s.cls then
     if E.customObjects.contains s.cls then
@@ -640,7 +693,7 @@ def nodeFromConfig (E : Env) (s : SNode) : Except Err Node :=
         | some spec => (layerFromConfig E spec s.cfg).map .q
         | none => .error .unknownObject
     else .error .unknownObject
-  else .ok (.keras s.cls s.cfg)
+  else .ok (.keras s.cls (kerasNodeCfg E s.cfg))
 
 def collectNodes : List (Except Err MNode) → Except Err Model
   | [] => .ok []
@@ -657,6 +710,41 @@ def modelFromConfig (E : Env) (sm : List SNode) : Except Err Model :=
     match nodeFromConfig E s with
     | .ok n => .ok ⟨n, s.inbound⟩
     | .error e => .error e)
+
+/-! ### `get_config` raising (numpy methods on plain Python values) -/
+
+def QVal.getConfigRaises (E : Env) : QVal → Bool
+  | .obj q => match E.findQ q.cls with | Option.some s => qGetConfigRaises s q | Option.none => false
+  | _ => false
+
+/-- serialising this argument calls a quantizer `get_config` that raises -/
+def argGetConfigRaises (E : Env) : Kind → Arg → Bool
+  | .quant _, .q v => v.getConfigRaises E
+  | .act, .act (.obj q) => (QVal.obj q).getConfigRaises E
+  | .rawAct, .act (.obj q) => (QVal.obj q).getConfigRaises E
+  | .init _ _ _, .init (.qinit _ _ v) => v.getConfigRaises E
+  | _, _ => false
+
+/-- `<layer>.get_config()` raises (so do `to_json`, `save` and `clone_model`) -/
+def layerGetConfigRaises (E : Env) (spec : LSpec) (L : Layer) : Bool :=
+  (spec.params.filter (·.emitted)).any fun p => argGetConfigRaises E p.kind (L.arg p.name)
+
+def Layer.getConfigRaises (E : Env) (L : Layer) : Bool :=
+  match E.findL L.cls with
+  | some spec => layerGetConfigRaises E spec L
+  | none => false
+
+def nodeGetConfigRaises (E : Env) : Node → Bool
+  | .q l => l.getConfigRaises E
+  | .keras _ _ => false
+  | .bidir _ f b => f.getConfigRaises E || (match b with | some bl => bl.getConfigRaises E | none => false)
+
+def modelGetConfigRaises (E : Env) (m : Model) : Bool := m.any fun n => nodeGetConfigRaises E n.node
+
+/-- a route as a whole: serialise (may raise), then Keras' deserialiser with the table -/
+def rebuild (E : Env) (m : Model) : Except Err Model :=
+  if modelGetConfigRaises E m then .error .attributeError
+  else modelFromConfig E (modelGetConfig E m)
 
 /-- the constructor arguments the inference computation of a layer reads -/
 def readArgs (spec : LSpec) (L : Layer) : List (String × Arg) :=
